@@ -67,6 +67,25 @@ def C01(c):
     c.corr("rnp-6plus", big, combos_of(["list"], [PT]), judge=judge)
 
 
+def judge_named(judge):
+    """run a judge written for list input (names = values) on a named answer: the names are replaced by their values first"""
+    def j(case, fmt, ot, got, names, ans):
+        if isinstance(got, dict) and "bins" in got:
+            val = {}
+            for nm, v in zip(names, case["vals"]):
+                val[_hk(nm)] = v
+            try:
+                got = dict(got, bins=[[val[_hk(x)] for x in b] for b in got["bins"]])
+            except KeyError:
+                return [(None, lambda a: ("invented-item", f"the answer names an item that was not given: {got['bins']}"))]
+        return judge(case, "list", ot, got, list(case["vals"]), ans)
+    return j
+
+
+def _hk(x):
+    return x if not isinstance(x, (np.integer,)) else int(x)
+
+
 # ------------------------------------------------------------------------------------------------ C03
 def C03(c):
     """bin-packing results are feasible packings of exactly the input items"""
@@ -387,6 +406,7 @@ def C08(c):
     c.corr("exhaustive", ex, combos_of(["list"], [PT]), judge=judge)
     c.exhaustive_scopes.append(f"all multisets of 1..{c.n(5,6)} values from 0..{c.n(4,6)} x k in {c.n([1,2,3],[1,2,3,4])}")
     c.corr("random", C.random_part_cases(rng, algs, c.n(300, 4000), nmax=c.n(10, 12)), combos_of(["list"], [PT]), judge=judge)
+    c.corr("random-named", C.random_part_cases(rng, algs, c.n(100, 1000), nmax=c.n(10, 12)), combos_of(["dict_str"], [PT]), judge=judge_named(judge))
     # planted instances with known optimum (k full bins of equal sum T => OPT_max = OPT_min = T) and the LPT tight family
     planted = []
     for _ in range(c.n(60, 600)):
@@ -462,6 +482,7 @@ def C09(c):
     c.corr("exhaustive", ex, combos_of(["list"], [PT]), judge=judge)
     c.exhaustive_scopes.append(f"every arrival order of every multiset of <= {c.n(4,5)} values from 1..B, B in {c.n([4,6],[4,6,7])}")
     c.corr("random", C.random_pack_cases(rng, C.PACKERS, c.n(400, 5000), nmax=c.n(10, 12)), combos_of(["list"], [PT]), judge=judge)
+    c.corr("random-named", C.random_pack_cases(rng, C.PACKERS, c.n(150, 1500), nmax=c.n(10, 12)), combos_of(["dict_str"], [PT]), judge=judge_named(judge))
     planted = []
     for _ in range(c.n(100, 1000)):
         B = rng.choice([10, 20, 100, 1000])
@@ -516,6 +537,7 @@ def C10(c):
     c.corr("exhaustive", ex, combos_of(["list"], [PT]), judge=judge)
     c.exhaustive_scopes.append(f"all multisets of <= {c.n(5,6)} values from 1..B+2, B in {c.n([6],[6,12])}")
     c.corr("random", C.random_cover_cases(rng, C.COVERS, c.n(300, 3000), nmax=c.n(11, 13)), combos_of(["list"], [PT]), judge=judge)
+    c.corr("random-named", C.random_cover_cases(rng, C.COVERS, c.n(150, 1500), nmax=c.n(11, 13)), combos_of(["dict_str"], [PT]), judge=judge_named(judge))
     planted = []
     for _ in range(c.n(100, 1000)):
         B = rng.choice([12, 20, 100, 1000])
@@ -1310,6 +1332,8 @@ def C14(c):
     c.corr("exhaustive-cover", exc, combos_of(["list"], [PT]), judge=judge)
     c.exhaustive_scopes.append(f"greedy/round-robin: multisets of <= {c.n(5,6)} values 0..{c.n(4,5)}, k in {c.n([1,2,3],[1,2,3,4])}; fit heuristics: every arrival order of "
                                f"multisets of <= {c.n(4,5)} values 1..B, B in {c.n([4,6],[4,6,7])}; covers: multisets of <= {c.n(5,6)} values 1..B+2, B in {c.n([6,7],[6,7,12])} (thresholds B/2, B/3 hit exactly; odd B: floor(B/2) below the threshold)")
+    named = C.random_part_cases(rng, part, c.n(60, 600), nmax=12) + C.random_pack_cases(rng, C.PACKERS, c.n(60, 600)) + C.random_cover_cases(rng, C.COVERS, c.n(60, 600))
+    c.corr("random-named", named, combos_of(["dict_str"], [PT]), judge=judge_named(judge))
     c.corr("random-part", C.random_part_cases(rng, part, c.n(300, 4000), nmax=30), combos_of(["list"], [PT]), judge=judge)
     c.corr("random-pack", C.random_pack_cases(rng, C.PACKERS, c.n(300, 4000), nmax=c.n(20, 40)), combos_of(["list"], [PT]), judge=judge)
     c.corr("random-cover", C.random_cover_cases(rng, C.COVERS, c.n(400, 5000), nmax=c.n(20, 40)), combos_of(["list"], [PT]), judge=judge)
@@ -1602,6 +1626,13 @@ def C19(c):
     c.corr("oversize-exhaustive", cases, combos, judge=judge)
     rnd = C.random_pack_cases(rng, packers, c.n(150, 1500), oversize=1.0)
     c.corr("oversize-random", rnd, lambda case, r: [(f, r.choice(ots)) for f in FORMATS], judge=judge)
+    # an excess of one over a huge bin size (the comparison must be exact: 2^53 + 1 > 2^53 although both are the same double)
+    huge = []
+    for B in (2 ** 53, 2 ** 60, 10 ** 18):
+        for vals in ([B + 1], [5, B + 1, 7], [B + 1, 5, B + 1], [3, 4, B + 1]):
+            for a in packers:
+                huge.append({"alg": a, "vals": vals, "p": {"B": B}})
+    c.corr("oversize-by-one-huge", huge, lambda case, r: [(f, r.choice(ots)) for f in ("list", "dict_str", "names_valueof")], judge=judge)
     # feasible requests are NOT refused (the other direction of the iff)
     okc = C.random_pack_cases(rng, packers, c.n(100, 1000), oversize=0.0)
 
@@ -1912,6 +1943,44 @@ def C15(c):
                     c.disagreements.append({"stream": "histories", "alg": e["alg"], "case": e, "fmt": fmt, "outtype": ot, "impl": got, "model": want,
                                             "request": lines[k_] + f"  (history {hno}, step {step})"})
         c.sample({"history": hno, "length": len(seq), "first_calls": [f"{calls[q][0]['alg']}/{calls[q][1]}/{calls[q][2]}" for q in seq[:8]]})
+    # the caller re-uses ITS OWN dict / value function object and changes a value between two calls: the second call must see the new value
+    # (state kept inside the library and keyed on the caller's object would answer with the stale one)
+    shared = [e for e in pool_cases if e["alg"] in ("greedy", "roundrobin", "multifit", "kk", "ff", "ffd", "bf", "bfd", "cover_decreasing", "twothirds",
+                                                      "threequarters", "cg", "dp", "ckk", "snp", "cbldm") and len(e["vals"]) >= 2
+              and not any(v > e["p"].get("B", 10 ** 12) for v in e["vals"]) and e["p"].get("cut") is None and e["p"].get("k", 2) == (2 if e["alg"] == "cbldm" else e["p"].get("k", 2))]
+    rng.shuffle(shared)
+    for e in shared[: c.n(80, 600)]:
+        alg = ALGS[e["alg"]]
+        names = names_for("dict_str", e["vals"], rng)
+        d = {nm: v for nm, v in zip(names, e["vals"])}
+        ot = getattr(out, rng.choice(["Sums", "Partition", "PartitionAndSumsTuple", "BinCount"]))
+        use_valueof = rng.random() < 0.4
+
+        def call(dd, fresh):
+            kw = dict(alg.kwargs(e["p"]))
+            if use_valueof:
+                items, kw["valueof"] = list(dd.keys()), (dd.__getitem__ if not fresh else (lambda x, dd=dd: dd[x]))
+            else:
+                items = dd
+            try:
+                if alg.kind == "partition":
+                    r = prtpy.partition(algorithm=alg.fn(), numbins=e["p"]["k"], items=items, outputtype=ot, **kw)
+                else:
+                    r = prtpy.pack(algorithm=alg.fn(), binsize=e["p"]["B"], items=items, outputtype=ot, **kw)
+                return canon_impl(r, ot.__name__)
+            except Exception as ex:      # noqa
+                return {"error": exc_name(ex)}
+        r1 = call(d, False)
+        j = rng.randrange(len(names))
+        newv = rng.choice([0, 1, d[names[j]] + 1, max(1, d[names[j]] // 2), min(e["p"].get("B", 10 ** 9), d[names[j]] + 3)])
+        d[names[j]] = newv if newv <= e["p"].get("B", 10 ** 12) else d[names[j]]
+        r2 = call(d, False)                 # the caller's own object, second call
+        r2_fresh = call(dict(d), True)      # the same contents in a brand-new object
+        c.evaluations += 3; c.corr_cases += 1
+        c.stats["shared-object"]["pairs"] += 1
+        label = dict(e["p"], vals=e["vals"], alg=e["alg"], outtype=ot.__name__, changed=names[j], new_value=d[names[j]], via="valueof" if use_valueof else "dict")
+        same = r2 == r2_fresh or (e["alg"] in ("dp",) and not J._is_err(r2))
+        c.check_direct(e["alg"], label, "history-dependent", same, r2, f"the result for the caller's dict after the change, as computed from a fresh copy of it: {json.dumps(r2_fresh, default=str)[:200]}")
 
 
 SUITES = {"C01": C01, "C02": C02, "C03": C03, "C04": C04, "C05": C05, "C06": C06, "C07": C07, "C08": C08, "C09": C09, "C10": C10, "C11": C11, "C12": C12, "C13": C13, "C14": C14, "C15": C15, "C16": C16, "C17": C17, "C18": C18, "C19": C19, "C20": C20}
